@@ -50,6 +50,7 @@ class Spec:
     # the context of the cancelled run afterwards
     resume_via: str = "abort"
     busy_ticks: int = 0  # RunConfig.busy_ticks
+    peeks: int = 0  # that many times the client looks at the run (ctx.to_dict() + running_steps()) without pausing it
 
 
 def limits_of(wf: Any) -> dict[str, int]:
@@ -76,16 +77,21 @@ def make_resume_action(e: Any, state: dict[str, Any], make_wf: Callable[[], Any]
         # reach worker tasks started inside the pending wait_for_next_task call)
         import asyncio as _aio
 
-        for _ in range(3):
-            left = [t for t in _aio.all_tasks(e.loop) if not t.done()]
-            if not left:
-                break
-            for t in left:
-                t.cancel()
-            e.loop.drain()
-        h.gates.clear()
-        for lst in h.live.values():
-            lst.clear()
+        if via == "abort_same_process":
+            # the run is hard-stopped (handler.cancel() / abort()), but the process lives on and continues the context:
+            # nothing is tidied up by the harness - whatever of the stopped run is still executing stays visible
+            pass
+        else:
+            for _ in range(3):
+                left = [t for t in _aio.all_tasks(e.loop) if not t.done()]
+                if not left:
+                    break
+                for t in left:
+                    t.cancel()
+                e.loop.drain()
+            h.gates.clear()
+            for lst in h.live.values():
+                lst.clear()
         h.restart_marks.append(len(h.published))
         wf2 = make_wf()
         h.stream_done = False
@@ -126,6 +132,14 @@ def run_engine(ex: Execution, spec: Spec, oracle: Oracle) -> tuple[Any, list[Any
         if spec.scripts:
             for sc in spec.scripts(state):
                 e.add_script(sc)
+        if spec.peeks:
+            def peek() -> None:
+                hd_ = state["hd"]
+                if not hd_.is_done():
+                    json.dumps(hd_.ctx.to_dict())
+                    e.loop.create_task(hd_.ctx.running_steps())
+
+            e.add_script([Action(f"peek#{i + 1}: ctx.to_dict() without pausing", peek) for i in range(spec.peeks)])
         if spec.resume:
             do_resume = make_resume_action(e, state, lambda: cls(runtime=MonRuntime(BasicRuntime()), **wkw), via=spec.resume_via)
             e.add_script([Action(f"snapshot+resume#{i + 1}" if spec.resume_count > 1 else "snapshot+resume", do_resume)
